@@ -38,7 +38,12 @@ def expected(op, step):
     if op in ("join", "split") and not around:
         return ("shape", "payload", "hst", "gapFits", "gapClean")
     if op == "wrap" and around:
-        return ("shape", "payload", "hst", "gapFits", "gapClean")      # the planner never proposes a leaf wrapper
+        n = step.slice.content.first_child
+        while n is not None and not n.is_leaf:
+            n = n.content.first_child
+        if n is not None:
+            return ("shape",)                               # a leaf wrapper (aimed case): finding C04-structure-inverse
+        return ("shape", "payload", "hst", "gapFits", "gapClean")
     if op == "lift" and around:
         return ("shape", "payload", "hst", "gapFits", "gapClean")      # ranges come from block_range: both ends at child boundaries
     if op in ("set_node_markup", "set_block_type") and around:
